@@ -91,6 +91,9 @@ let () = register "polydivspec" (fun a ->
     done;
     let zero l = (match l with [z] -> int_of_z z = 0 | _ -> false) in
     if not (List.length re < List.length g || zero re) then ok := false;
+    (* coefficient-wise: quotient * divisor + remainder = dividend *)
+    let back = poly_add (poly_mul f (poly_norm qu) g) (poly_norm re) in
+    if List.map int_of_z back <> List.map int_of_z (poly_norm p) then ok := false;
     if !ok then "OK" else "BAD"
   | _ -> "BADARGS")
 
